@@ -585,7 +585,7 @@ def plans_for(n, rng, quick, exhaustive_pairs):
     if exhaustive_pairs:
         plans += allp
     else:
-        plans += rng.sample(allp, min(len(allp), 10 if quick else 80))
+        plans += rng.sample(allp, min(len(allp), 10 if quick else 200))
     return plans
 
 
@@ -598,7 +598,7 @@ def shard_shapes(ctx, spec):
         rng = ctx.sub_rng("c04/%s/%d" % (stream, base + si))
         run0, n = fn(ctx, sh, {}, "%s-%d/none" % (stream, base + si))
         locks.append(run0.L)
-        small = n <= 8
+        small = n <= 10
         for pi, plan in enumerate(plans_for(n, rng, ctx.quick, exhaustive_pairs=(not ctx.quick and small))):
             if not plan:
                 continue
@@ -857,12 +857,24 @@ class IoOracle:
                     self.fail("iocb-callbacks", "IOCB #%d is finished and was called back %d times" % (i, self.cbs.get(i, 0)))
             elif self.cbs.get(i, 0):
                 self.fail("iocb-callbacks", "IOCB #%d called back while in state %d" % (i, d[0]))
+        if line["e"] == "confirm" and line["kind"] in ("ack", "err"):
+            # the outcome handed to the IOCB is the confirmation that arrived, in its class
+            for o in reply["out"]:
+                if o["o"] == "cb":
+                    want = (3, line["tok"], None) if line["kind"] == "ack" else (4, None, line["tok"])
+                    if (o["st"], o["resp"], o["err"]) != want:
+                        self.fail("iocb-outcome", "confirmation %s/%d finished IOCB #%d as (state, response, error) = %r" % (
+                            line["kind"], line["tok"], o["id"], (o["st"], o["resp"], o["err"])))
         if line["e"] in ("abort",) or line.get("fails"):
             self.clean = False
         for q in reply["q"]:
             addr, qid, busy, active, queue = q
             if not busy and queue and qid not in reply["def"]:
                 self.fail("queue-stuck", "queue of destination %d is idle with %d waiting and no trigger pending" % (addr, len(queue)))
+            for (_p, qi) in queue:
+                if reply["io"][qi][0] != 1:
+                    self.fail("queue-residue", "IOCB #%d in state %d is still an entry of the queue of destination %d" % (
+                        qi, reply["io"][qi][0], addr))
             if active is not None and reply["io"][active][0] != 2:
                 self.fail("queue-active", "active IOCB #%d of destination %d is in state %d" % (active, addr, reply["io"][active][0]))
             if self.clean and not busy and not queue and qid not in reply["def"]:
@@ -1059,12 +1071,12 @@ def run(ctx):
     for i in range(0, len(ss), per):
         specs.append({"role": "sv", "shapes": ss[i:i + per], "base": i})
     core.run_shards(ctx, "harness.c04", "shard_shapes", specs)
-    n_adv, ev_adv = (48, 250) if q else (800, 400)
+    n_adv, ev_adv = (48, 250) if q else (1600, 400)
     per = max(1, n_adv // 16)
     core.run_shards(ctx, "harness.c04", "shard_adv",
                     [(lo, min(lo + per, n_adv), ev_adv) for lo in range(0, n_adv, per)])
     # (3) lockstep, IOCB layer
-    n_io, ev_io = (96, 100) if q else (2400, 160)
+    n_io, ev_io = (96, 100) if q else (4000, 160)
     per = max(1, n_io // 16)
     core.run_shards(ctx, "harness.c04", "shard_io",
                     [(lo, min(lo + per, n_io), ev_io) for lo in range(0, n_io, per)])
